@@ -35,6 +35,10 @@ pub struct DfCfg {
     /// some data blocks are megabytes of highly compressible bytes
     #[serde(default)]
     pub huge_data: bool,
+    /// via_file only: tables (not sections) beyond any plausible I/O buffer — 1 thousands of tiny items,
+    /// 2 thousands of tiny data blocks, 3 more than a thousand item types
+    #[serde(default)]
+    pub many: u8,
 }
 
 #[derive(Clone, Debug, Serialize, Deserialize, PartialEq)]
@@ -119,7 +123,13 @@ fn model(cfg: &DfCfg) -> Model {
         return map_model(cfg, &mut r);
     }
     let mut type_ids: Vec<u16> = Vec::new();
-    while type_ids.len() < cfg.n_types as usize {
+    let n_types = if cfg.via_file && cfg.many == 3 { 1400 + (cfg.seed % 1500) as usize } else { cfg.n_types as usize };
+    if n_types > 100 {
+        // many types: consecutive ids from a random start
+        let start = r.below(0x10000 - n_types as u64) as u16;
+        type_ids.extend((0..n_types as u16).map(|k| start + k));
+    }
+    while type_ids.len() < n_types {
         let t = *r.pick(&[0u16, 1, 2, 3, 4, 5, 6, 100, 0x7fff, 0x8000, 0xfffe, 0xffff]);
         let t = if r.chance(1, 2) { t } else { r.below(0x10000) as u16 };
         if !type_ids.contains(&t) {
@@ -130,7 +140,15 @@ fn model(cfg: &DfCfg) -> Model {
     let mut items = Vec::new();
     if !type_ids.is_empty() {
         let mut per_type = vec![0usize; type_ids.len()];
-        let n_items = if cfg.via_file { cfg.n_items as usize * 24 } else { cfg.n_items as usize };
+        let n_items = if cfg.via_file && cfg.many == 1 {
+            4000 + (cfg.seed % 6000) as usize
+        } else if cfg.via_file && cfg.many == 3 {
+            0
+        } else if cfg.via_file {
+            cfg.n_items as usize * 24
+        } else {
+            cfg.n_items as usize
+        };
         for _ in 0..n_items {
             per_type[r.usize_below(type_ids.len())] += 1;
         }
@@ -140,15 +158,16 @@ fn model(cfg: &DfCfg) -> Model {
             for j in 0..n {
                 let id = if r.chance(1, 2) { j as u16 } else { r.below(0x10000) as u16 };
                 // through a real file the item section must outgrow any plausible I/O buffer (8 KiB, 64 KiB, ...)
-                let len = if cfg.via_file { *r.pick(&[0usize, 1, 2, 16, 40, 500, 500, 4000, 20000]) } else { *r.pick(&[0usize, 0, 1, 2, 3, 5, 16, 40]) };
+                let len = if cfg.via_file && cfg.many != 0 { *r.pick(&[0usize, 0, 1, 2]) } else if cfg.via_file { *r.pick(&[0usize, 1, 2, 16, 40, 500, 500, 4000, 20000]) } else { *r.pick(&[0usize, 0, 1, 2, 3, 5, 16, 40]) };
                 items.push(MItem { type_id: t, id, data: (0..len).map(|_| r.i32_edge()).collect() });
             }
         }
     }
     let mut data = Vec::new();
-    for _ in 0..cfg.n_data {
-        let mut len = *r.pick(&[0usize, 1, 2, 3, 4, 7, 100, 1000, 5000, 70000]);
-        if cfg.huge_data && r.chance(1, 2) {
+    let n_data = if cfg.via_file && cfg.many == 2 { 4000 + (cfg.seed % 3000) as usize } else { cfg.n_data as usize };
+    for _ in 0..n_data {
+        let mut len = if n_data > 100 { r.usize_below(4) } else { *r.pick(&[0usize, 1, 2, 3, 4, 7, 100, 1000, 5000, 70000]) };
+        if cfg.huge_data && n_data <= 100 && r.chance(1, 2) {
             // megabytes of highly compressible data (an empty tile layer of a big map)
             len = *r.pick(&[1usize << 20, (3 << 20) + 12345, 8 << 20]);
         }
@@ -755,6 +774,7 @@ impl Engine for DfEngine {
             via_file: c.chance(1, 10),
             file_prefix: if c.chance(1, 3) { *c.pick(&[1u16, 4, 100, 8191, 8192, 9000]) } else { 0 },
             huge_data: c.chance(1, 500),
+            many: if c.chance(1, 8) { 1 + c.below(3) as u8 } else { 0 },
         };
         let mut ops = Vec::new();
         let n_faults = match c.below(6) {
@@ -1057,6 +1077,9 @@ impl Engine for DfEngine {
         }
         if cfg.n_items > 0 {
             v.push(DfCfg { n_items: cfg.n_items - 1, ..cfg.clone() });
+        }
+        if cfg.many != 0 {
+            v.push(DfCfg { many: 0, ..cfg.clone() });
         }
         if cfg.n_types > 1 {
             v.push(DfCfg { n_types: cfg.n_types - 1, ..cfg.clone() });
